@@ -147,6 +147,16 @@ theorem encHdrs_length_ge (hs : List Hdr) : 2 * hs.length ≤ (encHdrs hs).lengt
     have := encHdr_length_ge h
     simp only [encHdrs, List.length_append, List.length_cons]; omega
 
+/-- the header-count check (`headerCount > buf.Len()`) admits every record, even tightened to `len/2` -/
+theorem header_count_check_admits (hs : List Hdr) (d : Nat) (hd : 1 ≤ d) (hd2 : d ≤ 2) :
+    ¬ ((hs.length : Int) > (((encHdrs hs).length / d : Nat) : Int)) := by
+  have h2 := encHdrs_length_ge hs
+  have : hs.length ≤ (encHdrs hs).length / d := by
+    rw [Nat.le_div_iff_mul_le (by omega)]
+    calc hs.length * d ≤ hs.length * 2 := Nat.mul_le_mul_left _ hd2
+      _ ≤ (encHdrs hs).length := by omega
+  omega
+
 theorem readHeaders_enc (hg : c.guard = true) (hr : c.Reads) (hmk : Adm mk L) (hs : List Hdr)
     (hw : ∀ h ∈ hs, h.Wf) (rest : Bytes) (hL : (encHdrs hs).length ≤ L) :
     readHeaders mk c hs.length (encHdrs hs ++ rest) = .ok hs := by
@@ -196,7 +206,9 @@ theorem decodeRecordBody_enc (hg : c.guard = true) (hr : c.Reads) (hmk : Adm mk 
   simp only [ofOpt_some, bind_ok, hg, Bool.true_and]
   have hge := encHdrs_length_ge r.hdrs
   have h1 : ¬ ((r.hdrs.length : Int) < 0) := by omega
-  have h2 : ¬ ((r.hdrs.length : Int) > ((encHdrs r.hdrs).length : Int)) := by omega
+  have h2 : ¬ ((r.hdrs.length : Int) > ((encHdrs r.hdrs).length : Int)) := by
+    have := header_count_check_admits r.hdrs 1 (Nat.le_refl _) (by decide)
+    simpa using this
   have h3 : mk (r.hdrs.length : Int) hdrSize = .ok () := hmk _ _ (by omega) (by rw [hhs]; simp; omega)
   simp only [h1, h2, decide_false, Bool.or_false, Bool.false_eq_true, if_false, h3, bind_ok, Int.toNat_natCast]
   have := readHeaders_enc hg hr hmk r.hdrs hhw [] (by omega)
@@ -234,6 +246,61 @@ theorem encRecs_length_ge (rs : List Rec) : rs.length ≤ (encRecs rs).length :=
 
 theorem recBody_le_encRec (r : Rec) : (recBody r).length ≤ (encRec r).length := by
   simp [encRec]
+
+/-! ### the sanity checks in front of the allocations never reject well-formed input
+
+`decodeBatchRecords` refuses a batch when `recordCount > len(recordsData)` and `decodeRecord` a record
+when `headerCount > buf.Len()` (fix C34).  Every encoded record is at least 7 bytes long (length
+varint, attributes, timestamp delta, offset delta, key length, value length, header count) and every
+encoded header at least 2, so these bounds — and any tighter bound down to `len/7` resp. `len/2` —
+admit every well-formed batch; 7 is attained, so `len/8` would already reject valid batches. -/
+
+theorem encOptBytes_length_pos (o : Option Bytes) : 0 < (encOptBytes o).length := by
+  rw [encOptBytes_eq]
+  have := varint_length_pos (optLen o)
+  simp only [List.length_append]; omega
+
+theorem recBody_length_ge_six (r : Rec) : 6 ≤ (recBody r).length := by
+  have h1 := varint_length_pos r.tsDelta
+  have h2 := varint_length_pos r.offDelta
+  have h3 := encOptBytes_length_pos r.key
+  have h4 := encOptBytes_length_pos r.val
+  have h5 := varint_length_pos (r.hdrs.length : Int)
+  simp only [recBody, List.length_cons, List.length_append]
+  omega
+
+theorem encRec_length_ge_seven (r : Rec) : 7 ≤ (encRec r).length := by
+  have h1 := varint_length_pos ((recBody r).length : Int)
+  have h2 := recBody_length_ge_six r
+  simp only [encRec, List.length_append]; omega
+
+theorem encRecs_length_ge_seven (rs : List Rec) : 7 * rs.length ≤ (encRecs rs).length := by
+  induction rs with
+  | nil => simp [encRecs]
+  | cons r t ih =>
+    have := encRec_length_ge_seven r
+    simp only [encRecs, List.length_append, List.length_cons]; omega
+
+/-- the smallest record: null key, null value, no headers, zero deltas — 7 bytes -/
+def minRec : Rec := ⟨0, 0, 0, none, none, []⟩
+
+theorem minRec_length : (encRec minRec).length = 7 := by decide
+
+theorem encRecs_replicate_minRec (n : Nat) : (encRecs (List.replicate n minRec)).length = 7 * n := by
+  induction n with
+  | zero => rfl
+  | succ n ih => simp only [List.replicate_succ, encRecs, List.length_append, ih, minRec_length]; omega
+
+/-- **The record-count check admits every well-formed batch**: for the code's bound
+(`recordCount > len(recordsData)`, divisor 1) and for any tighter divisor up to 7. -/
+theorem count_check_admits (rs : List Rec) (d : Nat) (hd : 1 ≤ d) (hd7 : d ≤ 7) :
+    ¬ ((rs.length : Int) > (((encRecs rs).length / d : Nat) : Int)) := by
+  have h7 := encRecs_length_ge_seven rs
+  have : rs.length ≤ (encRecs rs).length / d := by
+    rw [Nat.le_div_iff_mul_le (by omega)]
+    calc rs.length * d ≤ rs.length * 7 := Nat.mul_le_mul_left _ hd7
+      _ ≤ (encRecs rs).length := by omega
+  omega
 
 theorem decodeRecords_enc (hg : c.guard = true) (hr : c.Reads) (hmk : Adm mk L) (base firstTs : Int) (rs : List Rec)
     (hw : ∀ r ∈ rs, r.Wf) (rest : Bytes) (hL : hdrSize * (encRecs rs).length ≤ L) :
@@ -320,7 +387,10 @@ theorem decodeBatchRecords_enc (hg : c.guard = true) (hr : c.Reads) (hmk : Adm m
       rw [this]
       simp [encBatch, batchTail, drop_append_ge]
     simp only [bind_ok, e5, hg, Bool.true_and]
-    have hgd : ¬ ((b.recs.length : Int) > ((encRecs b.recs).length : Int)) := by omega
+    -- the count sanity check must let the batch through: `count_check_admits` with the code's divisor 1
+    have hgd : ¬ ((b.recs.length : Int) > ((encRecs b.recs).length : Int)) := by
+      have := count_check_admits b.recs 1 (Nat.le_refl _) (by decide)
+      simpa using this
     have hmk' : mk (b.recs.length : Int) recSize = .ok () := hmk _ _ (by omega) (by rw [hrs]; simp; omega)
     simp only [hgd, decide_false, Bool.false_eq_true, if_false, hmk', bind_ok, Int.toNat_natCast]
     have := decodeRecords_enc hg hr hmk b.base b.firstTs b.recs hrw [] (by rw [hhs]; omega)
@@ -616,7 +686,7 @@ theorem idxLoop_sublist : ∀ (sbs : List SBatch) (ib : IdxB) (n : Nat),
     obtain ⟨e', h1, h2⟩ := ih (maybeAdd ib b.base (wrap32 (32 + n)) b.msgCount) (n + b.bytes.length)
     rcases maybeAdd_entries ib b.base (wrap32 (32 + n)) b.msgCount with h | h
     · exact ⟨e', by simp [idxLoop, h1, h], List.Sublist.cons _ h2⟩
-    · exact ⟨(b.base, wrap32 (32 + n)) :: e', by simp [idxLoop, h1, h], List.Sublist.cons₂ _ h2⟩
+    · exact ⟨(b.base, wrap32 (32 + n)) :: e', by simp [idxLoop, h1, h], List.Sublist.cons_cons _ h2⟩
 
 theorem idxLoop_first (b : SBatch) (t : List SBatch) (ib : IdxB) (n : Nat) (h : ib.entries = []) :
     ∃ e', (idxLoop ib n (b :: t)).entries = (b.base, wrap32 (32 + n)) :: e' := by
@@ -797,6 +867,33 @@ theorem _root_.KafVerif.C07.decodeBatchRecords_encBatch (crc : Bytes → Nat) (b
     decodeBatchRecords (goMakeLim lim) cfgSql (encBatch crc b) = .ok (recordsOf b) :=
   ⟨decodeBatchRecords_enc rfl cfgIceberg_reads (adm_goMakeLim (Nat.le_refl _)) crc b hw hl,
    decodeBatchRecords_enc rfl cfgSql_reads (adm_goMakeLim (Nat.le_refl _)) crc b hw hl⟩
+
+/-- **The sanity checks never reject a well-formed batch.**  Every encoded record has at least 7
+bytes, so `recordCount ≤ len(recordsData)/7 ≤ len(recordsData)`: the record-count check of
+`decodeBatchRecords` — as coded, and with any divisor up to 7 — lets every well-formed batch
+through; likewise the header-count check of `decodeRecord` (every header has at least 2 bytes).
+The round-trip theorems (`decodeBatchRecords_encBatch`, `decodeSegment_buildSegment`) use exactly
+this fact to get past the checks. -/
+theorem _root_.KafVerif.C07.count_check_admits_wellformed (rs : List Rec) (hs : List Hdr) :
+    (∀ r : Rec, 7 ≤ (encRec r).length) ∧ 7 * rs.length ≤ (encRecs rs).length ∧
+    (∀ d, 1 ≤ d → d ≤ 7 → ¬ ((rs.length : Int) > (((encRecs rs).length / d : Nat) : Int))) ∧
+    (∀ d, 1 ≤ d → d ≤ 2 → ¬ ((hs.length : Int) > (((encHdrs hs).length / d : Nat) : Int))) :=
+  ⟨encRec_length_ge_seven, encRecs_length_ge_seven rs, fun d h1 h7 => count_check_admits rs d h1 h7,
+   fun d h1 h2 => header_count_check_admits hs d h1 h2⟩
+
+/-- … and 7 is attained: a batch of `n ≥ 1` minimal records (null key, null value, no headers) has
+`7·n` bytes of record data, so a check against `len/8` (or any larger divisor) rejects it although
+it is well-formed.  (This is the seeded regression C07-2.) -/
+theorem _root_.KafVerif.C07.count_check_divisor_8_rejects_minimal (n : Nat) (hn : 1 ≤ n) :
+    minRec.Wf ∧ (encRecs (List.replicate n minRec)).length = 7 * n ∧
+    (((List.replicate n minRec).length : Int) > (((encRecs (List.replicate n minRec)).length / 8 : Nat) : Int)) := by
+  refine ⟨?_, encRecs_replicate_minRec n, ?_⟩
+  · unfold Rec.Wf
+    refine ⟨by decide, by decide, by decide, by decide, by decide, ?_, by decide⟩
+    intro h hh; simp [minRec] at hh
+  · rw [encRecs_replicate_minRec, List.length_replicate]
+    have : 7 * n / 8 < n := by omega
+    omega
 
 /-- **C07 (b).** For every non-empty sequence of well-formed batches: `BuildSegment` succeeds and
 the iceberg decoder and the sql decoder both return exactly the records sent, in order. -/
